@@ -89,11 +89,11 @@ def binding_kinds(scope):
     for cls in (Nm.AssignedName, Nm.ArgumentName, Nm.ImportedName, S.FuncScope, S.ClassScope):
         if cls is Nm.ImportedName:
             for star in (False, True):
-                for fut in (False, True):
-                    o = loader.bare_instance(cls)
-                    o.is_star, o.qualified = star, False
-                    o.module = '__future__' if fut else 'os'
-                    out.append(('import%s%s' % ('-star' if star else '', '-future' if fut else ''), o))
+                for fut in (False, 'feature', 'module'):
+                    # `from __future__ import feature` (exempt), `import __future__ as name` (an import like any other)
+                    o = cls('imp', (1, 0), (1, 0), '__future__' if fut else 'os', None if fut == 'module' else 'feature', star)
+                    o.qualified = False
+                    out.append(('import%s%s' % ('-star' if star else '', '-future-%s' % fut if fut else ''), o))
         else:
             o = loader.bare_instance(cls)
             out.append((cls.__name__, o))
@@ -134,7 +134,7 @@ def spec_report(kind_scope, scope, kind_name, obj, used, name, qi):
     # module or class level: only imports
     if not is_import:
         return z3.BoolVal(False), None, None
-    ok = not obj.is_star and obj.module != '__future__'
+    ok = not obj.is_star and not (obj.module == '__future__' and obj.mname)      # from __future__ import x is exempt, import __future__ is not
     return z3.And(base, z3.BoolVal(ok), z3.Not(qi)), 'W02', 'Unused import: {}'
 
 
